@@ -111,6 +111,16 @@ pub fn round_moves(round: usize, thorough: bool, pairs: bool, static_mode: bool,
             }
         }
     }
+    if !static_mode {
+        // enhance_hot_reloading called while notified changes are still pending (no hot_reload in between):
+        // "or by itself after enhance_hot_reloading" -- the switch itself must apply them
+        for e in &es {
+            let mut ops = e.ops.clone();
+            ops.extend(notify_ops(&e.entries, 0));
+            ops.push("static".into());
+            out.push(Move { name: format!("{}|late-enhance", e.name), ops });
+        }
+    }
     if static_mode {
         // after enhance_hot_reloading, hot_reload is documented to have no effect: it must still return
         out.push(Move { name: "static-hot_reload".into(), ops: vec![format!("put l0.l {}7", round + 1), "ev F:l0.l".into(), "hr".into(), "hr".into()] });
